@@ -92,6 +92,7 @@ func VHJSONLoad() {
 
 // VHHistory: D operations in a row from the constructor (see VMapHistory).
 func VHHistory() {
-	s := New[int]()
-	sets.VSetHistory(s, false, "HashSet", func() { v.Assert(s.items != nil, "inv-map-nil") })
+	init := vl.InitArgs()
+	s := New[int](init...)
+	sets.VSetHistoryFrom(s, vl.DedupFirst(init), false, "HashSet", func() { v.Assert(s.items != nil, "inv-map-nil") })
 }
